@@ -1,5 +1,7 @@
-import Driver.Util
-/-! `drv_pool`: not built yet -/
+import Driver.PoolDrv
+open Driver
+
 def main : IO UInt32 := do
-  IO.eprintln "drv_pool: engine not implemented"
-  return 2
+  let lines ← readLines (← IO.getStdin) #[]
+  PoolDrv.main lines
+  return 0
